@@ -113,6 +113,7 @@ def check(t0, t1, ordered, reduce, res):
     s0, s1 = snap(t0), snap(t1)
     t2 = t0.diff(t1, ordered=ordered, reduce=reduce)
     res.count("diff_calls")
+    res.observe("diff_results", [[n.data, repr(n.get_meta("dc")), bool(n.get_meta("dc_renumbered")), n.depth()] for n in t2])
     if snap(t0) != s0 or snap(t1) != s1:
         errs.append("an input tree was modified")
     if t2 is t0 or t2 is t1:
